@@ -3,9 +3,28 @@
 C13 Edits keep derived views coherent; transactions atomic; copies independent.
 """
 from ..r_protocol import run_protocol
+from ..r_construct import (rule_keep_lists, rule_literal_keys, rule_construction, rule_transaction, rule_ownership,
+                           rule_symmetry, rule_changed_set)
 
 LEVEL = 'other'
 
 
 def run(ck, repo):
+    ck.assumptions += [
+        'raw molecule state is reached only through self._atoms / self._bonds, their aliases and objects drawn from them '
+        '(no setattr / computed getattr in the container MRO)',
+        'primitives calc_labels, calc_implicit, fix_stereo, flush_cache are taken at their documented effect',
+        'the exemption table of sa/r_protocol.py (one symbol + reason per row) and the optional-slot table of sa/r_construct.py',
+        'entry points are analysed outside a transaction; deferred work inside `with mol:` is __exit__\'s obligation (rule B4-transaction)',
+    ]
+    ck.undecided += ['"equals what an independently rebuilt molecule reports" as a value statement: the rules prove that no stale '
+                     'value can be served and no slot is missing, not that freshly computed values are right (C01/C04/C06)',
+                     'ordering subtleties the structured walk cannot see (a cache materialised between a flush and a later relabel)']
+    rule_keep_lists(ck, repo)
+    rule_literal_keys(ck, repo)
     run_protocol(ck, repo, 'B3')
+    rule_construction(ck, repo)
+    rule_transaction(ck, repo)
+    rule_ownership(ck, repo)
+    rule_symmetry(ck, repo)
+    rule_changed_set(ck, repo)
